@@ -7,16 +7,20 @@ import (
 	"unsafe"
 
 	"github.com/goccy/go-json/internal/runtime"
+	"github.com/goccy/go-json/internal/verifhook"
 )
 
 func CompileToGetDecoder(typ *runtime.Type) (Decoder, error) {
 	initDecoder()
 	typeptr := uintptr(unsafe.Pointer(typ))
 	if typeptr > typeAddr.MaxTypeAddr {
+		verifhook.DecBind(-1, typeptr)
 		return compileToGetDecoderSlowPath(typeptr, typ)
 	}
 
 	index := (typeptr - typeAddr.BaseTypeAddr) >> typeAddr.AddrShift
+	verifhook.DecBind(int(index), typeptr)
+	verifhook.Point(3, unsafe.Pointer(&cachedDecoder[index]), false)
 	if dec := cachedDecoder[index]; dec != nil {
 		return dec, nil
 	}
@@ -25,6 +29,7 @@ func CompileToGetDecoder(typ *runtime.Type) (Decoder, error) {
 	if err != nil {
 		return nil, err
 	}
+	verifhook.Point(4, unsafe.Pointer(&cachedDecoder[index]), true)
 	cachedDecoder[index] = dec
 	return dec, nil
 }
